@@ -86,6 +86,54 @@ func c18(c *core.Ctx) {
 				c.Check(okOps, key+":merge-operands", mg.Pos(), "merge(out, in)", "the merge does not copy from the 'in' parameter into the 'out' parameter")
 			}
 		}
+		// the primitives refuse only what the property names (a value that is not a protobuf message, a destination of
+		// another type — the merge's own verdict): no error they return is the answer of a checking function of the
+		// module that was handed the message (a "contains itself" guard that refuses messages sharing a sub-message)
+		for _, prim := range []*ssa.Function{copyMsg, cloneMsg} {
+			if prim == nil {
+				continue
+			}
+			ei := core.ErrResultIndex(prim.Signature)
+			bad := ""
+			var where token.Pos
+			for _, r := range core.Returns(prim) {
+				if ei < 0 || ei >= len(r.Results) {
+					continue
+				}
+				for _, l := range core.ErrLeaves(r.Results[ei], r) {
+					call, ok := core.Strip(l.V).(*ssa.Call)
+					if !ok {
+						continue
+					}
+					ci := core.InfoOf(&call.Call)
+					if ci.Static == nil || !strings.HasPrefix(ci.Pkg, core.ModulePath) || strings.Contains(ci.Name, "Merge") {
+						continue
+					}
+					for _, a := range call.Call.Args {
+						for _, pp := range prim.Params {
+							if core.OriginIs(a, func(x ssa.Value) bool {
+								x = core.Strip(x)
+								if x == ssa.Value(pp) {
+									return true
+								}
+								if ex, isEx := x.(*ssa.Extract); isEx {
+									if ta, isTA := ex.Tuple.(*ssa.TypeAssert); isTA && core.Strip(ta.X) == ssa.Value(pp) {
+										return true
+									}
+								}
+								if ta, isTA := x.(*ssa.TypeAssert); isTA && core.Strip(ta.X) == ssa.Value(pp) {
+									return true
+								}
+								return false
+							}) {
+								bad, where = ci.Name, r.Pos()
+							}
+						}
+					}
+				}
+			}
+			c.Check(bad == "", core.FuncName(prim)+":refuses-only-what-the-merge-refuses", where, "no error of the primitive is the verdict of a checking function of the module on the message", "the primitive returns the error of "+bad+", a function of the module that examines the message: messages the protobuf runtime copies (e.g. one sub-message referenced twice) are refused")
+		}
 		// any other place of the cloner code that merges into a destination resets it first, too
 		for _, fn := range append(p.LibFuncs("internal"), p.LibFuncs("inprocgrpc")...) {
 			if fn == copyMsg {
